@@ -94,12 +94,37 @@ def observe(text, backend, ident_map, ru=False):
         st2 = [stv2[canon(s)] if canon(s) in stv2 else 4.0 for s in ss]
         stiff = [s for s in ss if canon(s) in ("ID", "x", "z")]   # chosen by role, not by slot order
         out = {}
+        partial = {}
         if backend in ("numpy", "jax"):
-            code = impl.gen_python(ode, schemes=impl.ALL_SCHEMES, backend=backend, stiff_states=stiff, remove_unused=ru)
+            try:
+                code = impl.gen_python(ode, schemes=impl.ALL_SCHEMES, backend=backend, stiff_states=stiff, remove_unused=ru)
+            except Exception:  # noqa: BLE001
+                if backend != "numpy":
+                    raise
+                # a name may be refused for one scheme only: what the other schemes generate is judged on its own
+                for sch in impl.ALL_SCHEMES:
+                    try:
+                        partial[sch] = impl.gen_python(ode, schemes=[sch], backend=backend, stiff_states=stiff, remove_unused=ru)
+                    except Exception:  # noqa: BLE001
+                        pass
+                if not partial:
+                    raise
+                code = None
         else:
             code = cback.gen_c(ode, schemes=impl.ALL_SCHEMES, stiff_states=stiff, remove_unused=ru)
     except Exception as ex2:  # noqa: BLE001
         return ("error", "generate:" + type(ex2).__name__)
+    if partial:
+        try:
+            out["__partial__"] = True
+            for sch, pcode in partial.items():
+                ns = impl.exec_module(pcode)
+                fns = impl.export_functions(pcode)
+                with np.errstate(all="ignore"):
+                    out[sch] = dict(zip([canon(s) for s in ss], map(float, impl.call_numpy(ns[sch], fns[sch]["args"], 0.25, st, ps, dt=0.125))))
+        except Exception as ex2:  # noqa: BLE001
+            return ("broken", f"generation succeeded but using the {backend} code raises {type(ex2).__name__}: {str(ex2)[:100]}")
+        return ("ok", out)
     try:
         if backend == "numpy":
             ns = impl.exec_module(code)
@@ -185,6 +210,8 @@ def main(argv=None):
                         rep.violation(f"identifier {ident!r} as {role} ({be}, remove_unused={ru}): {got[1]}", {"kind": "direct", "text": text, "identifier": ident, "role": role, "backend": be, "remove_unused": ru})
                         return
                     for fn, vals in want[1].items():
+                        if got[1].get("__partial__") and fn not in got[1]:
+                            continue      # refused for this function only
                         g = got[1].get(fn, {})
                         for k_, v in vals.items():
                             gv = g.get(k_)
